@@ -8,7 +8,7 @@ use vh::{json, Cli, Report, Rng};
 fn main() {
     let cli = Cli::parse();
     let mut rep = Report::new("C04", &cli);
-    rep.note("rule", json!("case = Sort / VisualSort / BatchSort / BatchVisualSort (both positional metrics, shards 1..4; for the batch kinds the interleaving is a batch holding several scenes and the projection feeds one scene per batch) x interleaved history of 30..90 predict calls over 2..4 scenes; in 60% of the cases the scenes' objects occupy exactly the same image coordinates. Monitors: (1) lifecycle model: no record may continue a track of another scene; (2) differential: for every scene the projection of the history onto that scene is replayed on a fresh tracker and the interleaved run's records for that scene must equal it call by call - same grouping up to an id bijection built incrementally, and bit-identical boxes, epochs, lengths, custom ids. A grouping difference is handed to the explain-divergence oracle (C02 / C12 references on both runs' own pre-call states): it is a violation unless both outcomes are valid optimal associations (then it is counted as a tie divergence); a difference in numbers with equal grouping is always a violation. Non-trivial: scene projections with >= 2 calls in which another scene's call lies between two calls of this scene; distinct by (history, scene)."));
+    rep.note("rule", json!("case = Sort / VisualSort / BatchSort / BatchVisualSort (both positional metrics, shards 1..4; for the batch kinds the interleaving is a batch holding several scenes and the projection feeds one scene per batch) x interleaved history of 30..90 predict calls over 2..4 scenes; in 60% of the cases the scenes' objects occupy exactly the same image coordinates; in ~1% of the cases a further scene of the same tracker holds 1100..1400 tracks (created before the history, never touched again) while the history's own scenes are crowded (14..16 objects). Monitors: (1) lifecycle model: no record may continue a track of another scene; (2) differential: for every scene the projection of the history onto that scene is replayed on a fresh tracker and the interleaved run's records for that scene must equal it call by call - same grouping up to an id bijection built incrementally, and bit-identical boxes, epochs, lengths, custom ids. A grouping difference is handed to the explain-divergence oracle (C02 / C12 references on both runs' own pre-call states): it is a violation unless both outcomes are valid optimal associations (then it is counted as a tie divergence); a difference in numbers with equal grouping is always a violation. Non-trivial: scene projections with >= 2 calls in which another scene's call lies between two calls of this scene; distinct by (history, scene)."));
     rep.note("assumptions", json!(["histories contain no bit-identical detections within a call"]));
     let n = cli.cases(640, 5000);
     for idx in cli.index_range(n) {
@@ -23,26 +23,50 @@ fn main() {
             cfg.vis.own_use = *rng.pick(&[0.3f32, 0.6]);
             cfg.vis.min_track_len = (1 + rng.usize(2)).min(cfg.vis.max_obs);
         }
+        // now and then another scene of the same tracker holds a very large population of tracks (a busy camera next to
+        // quiet ones): 1100..1400 tracks created before the history starts, never touched again. The history's own scenes
+        // are then crowded (14..16 objects) so that their calls are contested assignment problems.
+        let heavy = !cli.small && rng.chance(0.012);
+        let heavy_tracks = if heavy { *rng.pick(&[1100usize, 1400]) } else { 0 };
         let w = WorldOpts {
             scenes,
             same_region: rng.chance(0.6),
-            preset: if leak_prone { *rng.pick(&["crowd", "convoy", "teleport"]) } else { *rng.pick(&["random", "crossing", "convoy", "crowd", "lookalikes", "stop-and-go", "teleport", "teleport"]) },
+            preset: if heavy { *rng.pick(&["crowd", "convoy"]) } else if leak_prone { *rng.pick(&["crowd", "convoy", "teleport"]) } else { *rng.pick(&["random", "crossing", "convoy", "crowd", "lookalikes", "stop-and-go", "teleport", "teleport"]) },
             rotated: rng.chance(0.25),
             features: kind.is_visual(),
             feat_dim: 4,
             duplicates: false,
-            nobj: 1 + rng.usize(5),
+            nobj: if heavy { 14 + rng.usize(3) } else { 1 + rng.usize(5) },
             steps: 40,
             low_quality: rng.chance(0.3),
             avoid_coincident: kind.is_visual() && (cfg.vis.own_use + cfg.vis.own_collect > 0.0),
             low_conf: false,
             vary_nobj: leak_prone || rng.chance(0.3),
         };
-        let h = HistOpts { len: if cli.small { 8 } else { 30 + rng.usize(61) }, lifecycle_ops: false, clear_wasted: false, auto_waste_ops: false, batches: kind.is_batch(), empty_calls: true };
+        let h = HistOpts { len: if cli.small { 8 } else if heavy { 10 + rng.usize(7) } else { 30 + rng.usize(61) }, lifecycle_ops: false, clear_wasted: false, auto_waste_ops: false, batches: kind.is_batch(), empty_calls: true };
         let ops = gen_history(&mut rng, &w, &h);
         rep.eval();
         // interleaved run with pre-call snapshots
         let mut trk = AnyTracker::new(&cfg);
+        if heavy {
+            rep.count("histories_with_a_heavily_populated_neighbour_scene");
+            let mut made = 0usize;
+            let mut cell = 0u64;
+            while made < heavy_tracks {
+                // (small calls: the cost of one call grows with detections x tracks^2)
+                let k = 20.min(heavy_tracks - made);
+                let dets: Vec<Det> = (0..k).map(|_| {
+                    let (cx, cy) = ((cell % 64) as f32 * 60.0 + 20.0, (cell / 64) as f32 * 60.0 + 20.0);
+                    cell += 1;
+                    Det { b: DBox { xc: cx, yc: cy, angle: None, aspect: 0.8, h: 30.0, conf: 0.9 }, custom: None, feature: None, quality: None, truth: 0 }
+                }).collect();
+                let r = trk.predict(1_000_000, &dets);
+                if r.len() != k {
+                    rep.violation(&format!("C04/{:?}/neighbour-scene/record-count", kind), idx, json!({"cfg": cfg.js(), "submitted": k, "records": r.len()}));
+                }
+                made += k;
+            }
+        }
         let mut life = Life::new(cfg.max_idle);
         struct CallLog {
             scene: u64,
